@@ -105,6 +105,11 @@ func cmdChildDecode(args []string) int {
 				}
 				if e != nil {
 					status = "err"
+					// a caller may call Read again after an error (bufio does): each further call must return as well
+					for again := 0; again < 3; again++ {
+						r.Read(buf[:1+again*977])
+						reads++
+					}
 					break
 				}
 				if n == 0 && reads > 100000 {
